@@ -686,3 +686,89 @@ func ruleDataFileClosedOnlyByClose(c *Ctx, id string) {
 		c.check(id+":(*DB).close:closes-DB.file", cl, cl.Pos(), "(*DB).close is the one place that closes DB.file", len(callsIn(cl, "os.(*File).Close")) >= 1, "close no longer closes the file")
 	})
 }
+
+// ---------------------------------------------------------------------------------------------
+// C13.R11 / C01.R12  options-wired-by-name
+//
+// "Options change performance, never content" presupposes that each option reaches the switch it is documented to
+// control. In Open every DB field that is assigned a value derived from a field of *Options must be the field of
+// the same name (DB.NoSync <- options.NoSync, DB.pageSize <- options.PageSize, ...): two options of the same type
+// swapped (`db.NoGrowSync = options.NoSync`) compile, pass every test that does not crash the machine, and silently
+// change the durability contract the caller selected. The eight directly copied options must still be copied.
+func ruleOptionsWiredByName(c *Ctx, id string) {
+	c.rule(id, "options-wired-by-name", 8, func() {
+		open := c.fn("bbolt.Open")
+		isOptionsField := func(l leaf) (string, bool) {
+			if l.Kind != "field" {
+				return "", false
+			}
+			fp := pathOf(l.V)
+			if len(fp.Fields) == 0 {
+				return "", false
+			}
+			f := fp.Fields[len(fp.Fields)-1]
+			// the field belongs to struct Options
+			opt := c.P.Pkg(rootPkg).Types.Scope().Lookup("Options")
+			if opt == nil {
+				return "", false
+			}
+			st, ok := opt.Type().Underlying().(*types.Struct)
+			if !ok {
+				return "", false
+			}
+			for i := 0; i < st.NumFields(); i++ {
+				if st.Field(i) == f {
+					return f.Name(), true
+				}
+			}
+			return "", false
+		}
+		dbT := c.P.Pkg(rootPkg).Types.Scope().Lookup("DB")
+		if dbT == nil {
+			panic(anchorErr{"DB"})
+		}
+		dbS := dbT.Type().Underlying().(*types.Struct)
+		isDBField := func(f *types.Var) bool {
+			for i := 0; i < dbS.NumFields(); i++ {
+				if dbS.Field(i) == f {
+					return true
+				}
+			}
+			return false
+		}
+		copied := map[string]bool{}
+		for _, fn := range withAnons(open) {
+			eachInstr(fn, func(in ssa.Instruction) {
+				st, ok := in.(*ssa.Store)
+				if !ok {
+					return
+				}
+				fa, ok := st.Addr.(*ssa.FieldAddr)
+				if !ok || !isDBField(fieldOfAddr(fa)) {
+					return
+				}
+				dst := fieldOfAddr(fa).Name()
+				for _, l := range provenance(st.Val, provOpts{}) {
+					src, ok := isOptionsField(l)
+					if !ok {
+						continue
+					}
+					// direct copies only: a value that merely depends on an option through a condition is not a leaf here
+					good := strings.EqualFold(src, dst)
+					if good {
+						copied[src] = true
+					}
+					c.check(id+":bbolt.Open:DB."+dst+"<-Options."+src, open, st.Pos(), "a DB field that receives an option receives the option of the same name", good,
+						"DB."+dst+" is set from options."+src+": the caller's "+src+" setting silently controls "+dst)
+				}
+			})
+		}
+		var missing []string
+		for _, n := range []string{"NoSync", "NoGrowSync", "NoFreelistSync", "FreelistType", "MmapFlags", "Mlock", "MaxSize", "PreLoadFreelist"} {
+			if !copied[n] {
+				missing = append(missing, n)
+			}
+		}
+		c.check(id+":bbolt.Open:options-copied", open, open.Pos(), "NoSync, NoGrowSync, NoFreelistSync, FreelistType, MmapFlags, Mlock, MaxSize and PreLoadFreelist are copied from the options into the DB", len(missing) == 0, "not copied any more: "+strings.Join(missing, ", "))
+	})
+}
